@@ -4,7 +4,7 @@
    That the Go code itself has no panic / hang is exhibited by the harness only (partial by nature). *)
 From Coq Require Import NArith ZArith List.
 From Acme.C08 Require Import DbcAst Chars DbcLex DbcParse ProofsLex ProofsPos ProofsTotal ProofsErrPos ProofsPrefix.
-From Acme.C09 Require Import ImportSkeleton ImportProofs.
+From Acme.C09 Require Import ImportSkeleton ImportProofs ImportPanics.
 Import ListNotations.
 Local Open Scope N_scope.
 
@@ -128,3 +128,18 @@ Print Assumptions import_range_loop_refuted.
 Theorem import_countdown_total : forall n : Z, countdown (S (Z.to_nat n)) (n - 1) 0 = Some (Z.to_nat n).
 Proof. exact ImportProofs.countdown_total. Qed.
 Print Assumptions import_countdown_total.
+
+(* ---- the panic(err) statements at the end of importFile (importer.go), over the model of the importer
+   (coq/C10/Import.v, whose outcome the harness compares with ImportDBCFile on every run): when the steps
+   before the last one succeed, the bus holds exactly one node with the placeholder name, so the lookup
+   finds it and the removal has something to remove *)
+Theorem import_placeholder_present : forall d b, Acme.C10.Import.import d = Acme.C10.BusModel.Ok b ->
+  exists sm b0 b1,
+    Acme.C10.Import.import_attributes sm d b0 = Acme.C10.BusModel.Ok b1 /\
+    In Acme.C10.DbcDoc.dummy_node (map Acme.C10.BusModel.n_name (Acme.C10.BusModel.b_nodes b1)) /\
+    count_occ String.string_dec (map Acme.C10.BusModel.n_name (Acme.C10.BusModel.b_nodes b1)) Acme.C10.DbcDoc.dummy_node = 1%nat /\
+    b = (if existsb (fun m => String.eqb (Acme.C10.BusModel.m_sender m) Acme.C10.DbcDoc.dummy_node) (Acme.C10.BusModel.b_messages b1) then b1
+         else Acme.C10.Import.set_b_nodes b1
+                (filter (fun n => negb (String.eqb (Acme.C10.BusModel.n_name n) Acme.C10.DbcDoc.dummy_node)) (Acme.C10.BusModel.b_nodes b1))).
+Proof. exact ImportPanics.placeholder_present_before_removal. Qed.
+Print Assumptions import_placeholder_present.
